@@ -246,6 +246,29 @@ class HostModel:
         self.cache = ModelCache(start_s)
         self.guards = GuardSet()
         self.suppressed = 0
+        self.held = {}  # (socket, querier) -> time (ms) of the last truncated query packet that is being held for it
+
+    @staticmethod
+    def _querier(sock_label, src):
+        if src is None:
+            return None
+        return (sock_label, src[0]) if src[1] == wire.MDNS_PORT else (sock_label, src[0], src[1])
+
+    def is_duplicate(self, sock_label, data, t_ms, src=None, msg=False):
+        """The duplicate guard of the statement (C16): the same bytes twice in immediate succession on one socket. A
+        truncated query packet, and the packet that may complete a truncated query that is held for its source, are
+        not for the guard to judge - two queriers with the same cache send the same bytes, and each is 'held for
+        continuation packets from the same source' (C12); copies from one source are told apart where the packets are
+        held."""
+        if msg is False:
+            msg = wire.try_decode(data)
+        if msg is not None and not msg.is_response:
+            if msg.tc:
+                return False
+            k = self._querier(sock_label, src)
+            if k is not None and k in self.held and t_ms - self.held[k] <= 500.0 + 1e-3:
+                return False
+        return not self.guards.check(sock_label, data, t_ms, src)
 
     def on_rx(self, t_s, sock_label, data, v6sock=False, src=None):
         """Returns (msg, effect): msg is the strictly decoded accepted datagram or None; effect for responses."""
@@ -253,11 +276,18 @@ class HostModel:
         self.cache.advance(t_s)
         if len(data) > wire.MAX_ABS:
             return None, None
-        if not self.guards.check(sock_label, data, t_ms, src):
+        msg = wire.try_decode(data)
+        if self.is_duplicate(sock_label, data, t_ms, src, msg):
             self.suppressed += 1
             return None, None
-        msg = wire.try_decode(data)
         self.guards.accept(sock_label, data, t_ms, bool(msg and any(q.qu for q in msg.questions)), src)
+        if msg is not None and not msg.is_response:
+            k = self._querier(sock_label, src)
+            if k is not None:
+                if msg.tc:
+                    self.held[k] = t_ms
+                else:
+                    self.held.pop(k, None)
         if msg is None:
             return None, None
         if msg.is_response:
